@@ -188,6 +188,17 @@ int worker_main(int argc, char** argv, Scenario& sc) {
         const Violation* v2 = first_unknown(r2, a.known);
         bool stable = v2 && v2->cls == cls && r2.hash == r.hash;
         line["gate_same_process"] = stable;
+        // the unshrunk plan is a complete result already: written before minimisation, so that a shrink candidate that
+        // kills the process (a smaller input can crash where the original only mis-answers) cannot lose or mis-attribute it
+        const std::string path = a.replays + "/" + sc.id() + "-" + plan.gets("seed") + ".json";
+        {
+            Json file = Json::object();
+            file["property"] = sc.id(); file["class"] = cls; file["detail"] = detail; file["hash"] = hex64(r.hash);
+            file["shrink_reexecutions"] = 0; file["original_seed"] = plan.gets("seed"); file["plan"] = plan;
+            fs::spit(path, file.dump(1));
+            Json pend = line; pend["type"] = "violation_pending"; pend["class"] = cls; pend["detail"] = detail; pend["replay"] = path; pend["min_hash"] = hex64(r.hash);
+            emit(pend);
+        }
         // ---- minimise while the same violation class persists
         Json best = plan; RunResult best_r = r; int tries = 0;
         if (stable) {
@@ -216,7 +227,6 @@ int worker_main(int argc, char** argv, Scenario& sc) {
         file["shrink_reexecutions"] = tries;
         file["original_seed"] = plan.gets("seed");
         file["plan"] = best;
-        std::string path = a.replays + "/" + sc.id() + "-" + plan.gets("seed") + ".json";
         fs::spit(path, file.dump(1));
         line["type"] = "violation";
         line["class"] = cls;
